@@ -11,7 +11,7 @@ import os
 from report import AnalysisError, VERIF
 from pyfront import Repo, canon, attr_accesses, qualname
 from pyutil import rel
-from consteval import Ev, Unknown, Raised
+from consteval import Ev, Unknown, Raised, _FALL
 import exprnf as X
 from exprnf import C, V
 from cfront import TU, kids, kind, strip, walk, ctext, array_extent, calls_to, call_args, fold_env, wrap_int
@@ -31,14 +31,22 @@ EXPLANATION = (
     "is accepted as `mod N` only with an interval proof operand <= 2N - 1 for every N; the time decomposition (T1 mod 64, T2, T3) is "
     "compared with TS 45.002 4.3.3 on both sides, the table index is bounded by intervals (HSN range established by the "
     "constructor's guard) and the frequency getters must pass their own frame number to resolve(). All inputs are covered "
-    "because formulas, tables and guards are compared, not values.")
+    "because formulas, tables and guards are compared, not values. In addition (R7) the simulator object is decided as "
+    "constructed: HoppingParams.__init__ followed by resolve() is constant-folded by the whitelisted evaluator for concrete "
+    "witnesses (N = 1..5 with every MAIO in 0..63, larger N around the multiples of N; HSN 0, 1, 63; frames covering every value "
+    "of S and both sides of M' < N) and the value returned is compared with MA[(S + MAIO) mod N] computed by the checker from "
+    "the reference table -- any differing witness is a counterexample inside the property's domain, whatever the constructor does "
+    "with its parameters (e.g. a MAIO applied by list slicing that does not wrap for MAIO >= N). Every rule group is a stage: "
+    "a group that cannot be analysed is deferred and does not hide a violation recognised by another group.")
 ASSUMPTIONS = [
     "spec/hopping.json is a faithful transcription of TS 45.002 table 6.2.3 and of the algorithm of clause 6.2.3",
     "NBIN is the number of bits needed to represent N (TS 45.002 6.2.3), so 2^NBIN - 1 == (1 << N.bit_length()) - 1; the mask is "
     "decided on the property's domain N = 1..64 only (exhaustive fold of a data definition, no frame number or history involved); "
     "`x & (2^NBIN - 1)` is `x mod 2^NBIN`",
     "equality of results for every (HSN, MAIO, N, FN) follows from the equality of the normal forms under the listed rewrites "
-    "(commutativity/associativity, x & (2^k - 1) == x mod 2^k, mod absorption); nothing is enumerated",
+    "(commutativity/associativity, x & (2^k - 1) == x mod 2^k, mod absorption also through the arms of a conditional); the "
+    "formula rules enumerate nothing; R7 enumerates witnesses only to refute (a pass of R7 alone proves nothing, the pass rests on "
+    "R1-R6), with consteval as a faithful evaluator of the Python subset it accepts and a Mobile Allocation of distinct (Rx, Tx) pairs",
     "firmware: hsn (uint8_t from L1CTL) is assumed to be in 0..63 (the property's domain) and struct gsm_time to satisfy "
     "t1 < 2048, t2 < 26, t3 < 51 (C19.R3 invariant); the list stored as HoppingParams.ma is not mutated after construction",
 ]
@@ -393,15 +401,27 @@ def check_vocabulary(t, where):
             where, ", ".join(sorted(set(bad))), G.show(t)[:200]))
 
 
+def strip_mod(t, n):
+    """a term congruent to t modulo n: reductions `mod n` dropped from t, from the operands of a sum and from both arms of
+    a conditional (the conditions themselves are left alone)"""
+    if t[0] == "mod" and t[2] == n:
+        return strip_mod(t[1], n)
+    if t[0] == "+":
+        return X.add(*[strip_mod(y, n) for y in t[1:]])
+    if t[0] == "ite":
+        return G.ite_(t[1], strip_mod(t[2], n), strip_mod(t[3], n))
+    return t
+
+
 def absorb(t):
-    """((a mod n) + b) mod n == (a + b) mod n"""
+    """((a mod n) + b) mod n == (a + b) mod n, also when the reduced operand sits in the arms of a conditional:
+    ((a mod n if c else b) + m) mod n == ((a if c else b) + m) mod n"""
     def leaf(x):
-        if x[0] == "mod" and x[1][0] == "+":
-            n = x[2]
-            terms = [absorb(y) for y in x[1][1:]]
-            if any(y[0] == "mod" and y[2] == n for y in terms):
-                terms = [y[1] if (y[0] == "mod" and y[2] == n) else y for y in terms]
-                return X.mod(X.add(*terms), absorb(n))
+        if x[0] == "mod":
+            n, inner = absorb(x[2]), absorb(x[1])
+            s = strip_mod(inner, n)
+            if s != inner:
+                return X.mod(s, n)
         return None
     return G.renorm(t, leaf, band_pnm)
 
@@ -566,8 +586,17 @@ class CSide:
 # ------------------------------------------------------------------------------
 # rules
 
-def r1_tables(L, repo, py, cs, spec):
-    ref = spec["RNTABLE"]
+def _table_vs_reference(L, side, file, func, tab, line, n_decl, ref):
+    L.require("C07.R1", file, func, "%s has the 114 entries of TS 45.002 table 6.2.3" % side,
+              {"declared": 114, "initialised": 114}, {"declared": n_decl, "initialised": len(tab)}, line=line)
+    for i in range(114):
+        got = tab[i] if i < len(tab) else None
+        L.require("C07.R1", file, func, "%s[%d] equals entry %d of TS 45.002 table 6.2.3" % (side, i, i), ref[i], got, line=line)
+    L.floor("C07.R1", "%s entries" % side, len(tab), 114)
+
+
+def r1_py_table(L, repo, py, spec):
+    """R1, simulator: HoppingParams.RNTABLE is table 6.2.3; returns the folded table"""
     node = py.ci.attrs.get(py.table_attr)
     if node is None:
         raise AnalysisError("HoppingParams.%s vanished" % py.table_attr)
@@ -578,22 +607,19 @@ def r1_tables(L, repo, py, cs, spec):
     if not isinstance(ptab, (list, tuple)) or not all(isinstance(x, int) and not isinstance(x, bool) for x in ptab):
         raise AnalysisError("HoppingParams.RNTABLE is not a list of integers")
     ptab = list(ptab)
+    _table_vs_reference(L, "Python HoppingParams.RNTABLE", F_GSM, "HoppingParams", ptab, node.lineno, len(ptab), spec["RNTABLE"])
+    return ptab
+
+
+def r1_c_table(L, cs, spec):
+    """R1, firmware: rn_table is table 6.2.3 and is only read; returns (initialiser, declared extent)"""
     tu = cs.tu
     v = tu.var(cs.table_name)
     ext = array_extent(v.get("type", {}).get("qualType"))
     init = tu.init_value(kids(v)[-1]) if kids(v) else None
     if not isinstance(init, list) or not all(isinstance(x, int) for x in init):
         raise AnalysisError("rn_table initialiser is not a list of integer constants")
-    for (side, file, func, tab, line, n_decl) in (
-            ("Python HoppingParams.RNTABLE", F_GSM, "HoppingParams", ptab, node.lineno, len(ptab)),
-            ("C rn_table", F_RFCH, "rn_table", init, tu.line(v), ext)):
-        L.require("C07.R1", file, func, "%s has the 114 entries of TS 45.002 table 6.2.3" % side,
-                  {"declared": 114, "initialised": 114}, {"declared": n_decl, "initialised": len(tab)}, line=line)
-        for i in range(114):
-            got = tab[i] if i < len(tab) else None
-            L.require("C07.R1", file, func, "%s[%d] equals entry %d of TS 45.002 table 6.2.3" % (side, i, i), ref[i], got, line=line)
-        L.floor("C07.R1", "%s entries" % side, len(tab), 114)
-    L.require("C07.R1", F_GSM, "HoppingParams", "Python and C tables are identical", init, ptab, line=node.lineno)
+    _table_vs_reference(L, "C rn_table", F_RFCH, "rn_table", init, tu.line(v), ext, spec["RNTABLE"])
     # C: the table is only read
     vid = v.get("id")
     uses = 0
@@ -611,7 +637,13 @@ def r1_tables(L, repo, py, cs, spec):
                 L.ob("C07.R1", F_RFCH, name, "rn_table is only read (indexed rvalue), never written or passed on",
                      "rn_table[i] as rvalue", [c[0] if c else None for c in chain], ok, tu.line(x))
     L.floor("C07.R1", "uses of rn_table", uses, 1)
-    return ptab, init, ext
+    return init, ext
+
+
+def r1_same_table(L, py, ptab, ctab):
+    node = py.ci.attrs.get(py.table_attr)
+    L.require("C07.R1", F_GSM, "HoppingParams", "Python and C tables are identical", ctab[0], ptab,
+              line=node.lineno if node is not None else None)
 
 
 def mask_verdict(L, file, func, what, values, line, evidence):
@@ -634,9 +666,27 @@ def structure(t):
     return "OR of N >> k for k in %s%s" % (sorted(sh[0]), "" if not sh[1] else " and other operands %s" % [G.show(x) for x in sh[1]])
 
 
-def r2_mask(L, repo, py, cs):
+def _fold_masks(L, file, func, masks, line, what, call=None, reset=None):
+    """every mask term (a function of N) folded for each N of the domain; returns the number of masks"""
+    for mterm in masks:
+        deps = sorted(x[1] for x in variables(mterm) if x != N)
+        L.ob("C07.R2", file, func, "the mask (%s) is a function of N only" % what, [], deps, not deps, line)
+        vals = []
+        for n in DOMAIN_N:
+            if reset is not None:
+                reset()
+            v = eval_term(mterm, {N: n, HSN: 1, MAIO: 0}, call)
+            if v is None:
+                raise AnalysisError("%s: the 2^NBIN mask `%s` cannot be folded for N = %d; unclassifiable" % (
+                    func, G.show(mterm)[:120], n))
+            vals.append((n, v))
+        mask_verdict(L, file, func, what, vals, line, structure(mterm))
+    return len(masks)
+
+
+def r2_py_mask(L, repo, py):
+    """R2, simulator: the mask attribute is folded through the constructor itself for every N of the domain"""
     nmasks = 0
-    # Python: the mask attribute is folded through the constructor itself for every N of the domain
     if py.attr.get("pnm"):
         nmasks += 1
         hp, mp_, ap = py.init_params
@@ -662,30 +712,23 @@ def r2_mask(L, repo, py, cs):
         L.ob("C07.R2", F_GSM, "HoppingParams.__init__",
              "the mask is a function of the length of the list stored as the mobile allocation only",
              [], deps, not deps and any(x == ("call", "len", ma_par) for x in G.subterms(pn)), py.init.lineno)
-    for (file, func, masks, line, what) in (
-            (F_GSM, "HoppingParams.resolve", py.inline_masks, py.resolve.lineno, "expression applied with `&` in resolve()"),
-            (F_RFCH, cs.mask_fn, cs.masks, cs.tu.line(cs.tu.functions[cs.mask_fn]), "value rfch_hop_seq_gen applies with `&`")):
-        for mterm in masks:
-            nmasks += 1
-            deps = sorted(x[1] for x in variables(mterm) if x != N)
-            L.ob("C07.R2", file, func, "the mask (%s) is a function of N only" % what, [], deps, not deps, line)
-            vals = []
-            for n in DOMAIN_N:
-                call = None
-                if file == F_RFCH:
-                    cs.fold.steps = 0
-                    call = cs.fold.call
-                v = eval_term(mterm, {N: n, HSN: 1, MAIO: 0}, call)
-                if v is None:
-                    raise AnalysisError("%s: the 2^NBIN mask `%s` cannot be folded for N = %d; unclassifiable" % (
-                        func, G.show(mterm)[:120], n))
-                vals.append((n, v))
-            mask_verdict(L, file, func, what, vals, line, structure(mterm))
+    nmasks += _fold_masks(L, F_GSM, "HoppingParams.resolve", py.inline_masks, py.resolve.lineno,
+                          "expression applied with `&` in resolve()")
+    L.extra["mask_reference"] = {str(n): nbin_mask(n) for n in DOMAIN_N}
+    L.floor("C07.R2", "2^NBIN masks (Python)", nmasks, 1)
+
+
+def r2_c_mask(L, cs):
+    """R2, firmware: the value rfch_hop_seq_gen applies with `&`, folded for every N of the domain"""
+    def reset():
+        cs.fold.steps = 0
+    nmasks = _fold_masks(L, F_RFCH, cs.mask_fn, cs.masks, cs.tu.line(cs.tu.functions[cs.mask_fn]),
+                         "value rfch_hop_seq_gen applies with `&`", cs.fold.call, reset)
     L.extra["mask_reference"] = {str(n): nbin_mask(n) for n in DOMAIN_N}
     if len(cs.masks) != 1:
         L.require("C07.R2", F_RFCH, cs.HOP, "one 2^NBIN mask is used by the firmware's hopping formula", 1, len(cs.masks),
                   line=cs.tu.line(cs.f))
-    L.floor("C07.R2", "2^NBIN masks (Python + C)", nmasks, 2)
+    L.floor("C07.R2", "2^NBIN masks (C)", nmasks, 1)
 
 
 def settle_reductions(L, file, func, term, line, rntable, names):
@@ -718,23 +761,45 @@ def settle_reductions(L, file, func, term, line, rntable, names):
     return G.renorm(term, leaf, band_pnm)
 
 
-def r3_formula(L, py, cs, rntable):
-    # Python
-    sp = spec_terms(FN, *[G.spec_decomposition(FN)[k] for k in ("t1", "t2", "t3")])
-    sc = spec_terms(FN, V("T1"), V("T2"), V("T3"))
-    py.term = settle_reductions(L, F_GSM, "HoppingParams.resolve", py.term, py.resolve.lineno, rntable, sp["names"])
-    cs.term = settle_reductions(L, F_RFCH, cs.HOP, cs.term, cs.tu.line(cs.f), rntable, sc["names"])
+def spec_py():
+    return spec_terms(FN, *[G.spec_decomposition(FN)[k] for k in ("t1", "t2", "t3")])
+
+
+def spec_c():
+    return spec_terms(FN, V("T1"), V("T2"), V("T3"))
+
+
+def settle_py(L, py, rntable):
+    """the simulator's term with its conditional subtractions settled and inside the vocabulary of the specification term;
+    the formula, T1R, index and return-path rules read it (none of them gives a verdict on a term with opaque parts)"""
+    py.term = settle_reductions(L, F_GSM, "HoppingParams.resolve", py.term, py.resolve.lineno, rntable, spec_py()["names"])
     check_vocabulary(py.term, "HoppingParams.resolve")
-    compare_formula(L, F_GSM, "HoppingParams.resolve", py.term, ("idx", MA, sp["mai"]), sp["names"], py.resolve.lineno, "py")
-    # C
+    return py
+
+
+def settle_c(L, cs, rntable):
+    """same for the firmware's term"""
+    cs.term = settle_reductions(L, F_RFCH, cs.HOP, cs.term, cs.tu.line(cs.f), rntable, spec_c()["names"])
     check_vocabulary(cs.term, cs.HOP)
+    return cs
+
+
+def r3_py_formula(L, py):
+    """R3, simulator: the value returned by resolve() is the TS 45.002 6.2.3 term"""
+    sp = spec_py()
+    compare_formula(L, F_GSM, "HoppingParams.resolve", py.term, ("idx", MA, sp["mai"]), sp["names"], py.resolve.lineno, "py")
+    L.floor("C07.R3", "formula terms compared (Python)", 1, 1)
+
+
+def r3_c_formula(L, cs):
+    """R3, firmware: the value returned by rfch_hop_seq_gen() is the TS 45.002 6.2.3 term"""
+    sc = spec_c()
     want = G.ite_(X.cmp_("==", MA, C(0)), sc["mai"], ("idx", MA, sc["mai"]))
     found = cs.term
     if not any(a == X.cmp_("==", MA, C(0)) for a in G.atoms_of(found)):
         want = ("idx", MA, sc["mai"])
     compare_formula(L, F_RFCH, cs.HOP, found, want, sc["names"], cs.tu.line(cs.f), "c")
-    L.floor("C07.R3", "formula terms compared", 2, 2)
-    return sp, sc
+    L.floor("C07.R3", "formula terms compared (C)", 1, 1)
 
 
 def rn_indices(t):
@@ -756,24 +821,41 @@ def t1_uses(I, T1):
     return out
 
 
-def r4_time(L, repo, py, cs, sp, sc):
+def r4_decomposition(L, repo):
     G.r1_decomposition(L, repo, rule="C07.R4", hopping_only=True)
-    for (file, func, term, T1, line) in ((F_GSM, "HoppingParams.resolve", py.term, G.spec_decomposition(FN)["t1"], py.resolve.lineno),
-                                         (F_RFCH, cs.HOP, cs.term, V("T1"), cs.tu.line(cs.f))):
-        idxs = []
-        for I in rn_indices(term):
-            if I not in idxs:
-                idxs.append(I)
-        L.floor("C07.R4", "RNTABLE accesses in %s" % func, len(idxs), 1)
-        for I in idxs:
-            uses = sorted({("T1 mod %d" % p[2][1]) if (p is not None and p[0] == "mod" and p[1] == T1 and p[2][0] == "c")
-                           else "T1 unreduced" for p in t1_uses(I, T1)})
-            L.require("C07.R4", file, func, "T1R = T1 mod 64 (`t1 & 63`) is what enters the RNTABLE index", ["T1 mod 64"],
-                      uses, line=line)
 
 
-def r5_bound(L, py, cs, ptab, ctab, cext):
-    # Python: HSN range where it enters
+def r4_t1r(L, file, func, term, T1, line):
+    """R4: T1 enters the RNTABLE index only as T1R = T1 mod 64"""
+    idxs = []
+    for I in rn_indices(term):
+        if I not in idxs:
+            idxs.append(I)
+    L.floor("C07.R4", "RNTABLE accesses in %s" % func, len(idxs), 1)
+    for I in idxs:
+        uses = sorted({("T1 mod %d" % p[2][1]) if (p is not None and p[0] == "mod" and p[1] == T1 and p[2][0] == "c")
+                       else "T1 unreduced" for p in t1_uses(I, T1)})
+        L.require("C07.R4", file, func, "T1R = T1 mod 64 (`t1 & 63`) is what enters the RNTABLE index", ["T1 mod 64"],
+                  uses, line=line)
+
+
+def r4_py_t1r(L, py):
+    r4_t1r(L, F_GSM, "HoppingParams.resolve", py.term, G.spec_decomposition(FN)["t1"], py.resolve.lineno)
+
+
+def r4_c_t1r(L, cs):
+    r4_t1r(L, F_RFCH, cs.HOP, cs.term, V("T1"), cs.tu.line(cs.f))
+
+
+def _index_bound(L, file, func, term, size, rng, line, note):
+    for I in rn_indices(term):
+        v = G.interval(I, rng)
+        L.ob("C07.R5", file, func, "RNTABLE index (HSN xor T1R) + T3 stays inside the table (<= 63 + 50 < 114)",
+             "[0, %d]" % (size - 1), "%s (%s)" % (G.ivtxt(v), note), v[0] >= 0 and v[1] <= size - 1 and v[1] <= 113, line)
+
+
+def r5_py_bound(L, py, ptab):
+    """R5, simulator: HSN range where it enters, and the table index under it"""
     hv = py.init_env[py.attr["hsn"]]
     iv = (-G.INF, G.INF)
     for c, pol in py.init_conds:
@@ -782,24 +864,28 @@ def r5_bound(L, py, cs, ptab, ctab, cext):
          "[0, 63]", "%s from guards %s" % (G.ivtxt(iv), [G.show(G.truth(c if p else ("not", c))) for c, p in py.init_conds]),
          hv[0] == "v" and iv[0] >= 0 and iv[1] <= 63, py.init.lineno)
     hs = (max(iv[0], 0), min(iv[1], 63)) if iv[0] >= 0 and iv[1] <= 63 else iv
-    for (file, func, term, size, rng, line, note) in (
-            (F_GSM, "HoppingParams.resolve", py.term, len(ptab), {HSN: hs}, py.resolve.lineno, "HSN range from the constructor guard"),
-            (F_RFCH, cs.HOP, cs.term, min(cext or 0, len(ctab)),
-             {HSN: (0, 63), V("T1"): (0, 2047), V("T2"): (0, 25), V("T3"): (0, 50)}, cs.tu.line(cs.f),
-             "HSN in 0..63 (property domain), gsm_time invariant")):
-        for I in rn_indices(term):
-            v = G.interval(I, rng)
-            L.ob("C07.R5", file, func, "RNTABLE index (HSN xor T1R) + T3 stays inside the table (<= 63 + 50 < 114)",
-                 "[0, %d]" % (size - 1), "%s (%s)" % (G.ivtxt(v), note), v[0] >= 0 and v[1] <= size - 1 and v[1] <= 113, line)
+    _index_bound(L, F_GSM, "HoppingParams.resolve", py.term, len(ptab), {HSN: hs}, py.resolve.lineno,
+                 "HSN range from the constructor guard")
 
 
-def r6_use(L, repo, py, cs):
+def r5_c_bound(L, cs, ctab):
+    init, cext = ctab
+    _index_bound(L, F_RFCH, cs.HOP, cs.term, min(cext or 0, len(init)),
+                 {HSN: (0, 63), V("T1"): (0, 2047), V("T2"): (0, 25), V("T3"): (0, 50)}, cs.tu.line(cs.f),
+                 "HSN in 0..63 (property domain), gsm_time invariant")
+
+
+def r6_py_returns(L, py):
     # resolve returns MA[...] on every path
     lv = list(G.ite_leaves(py.term))
     bad = [G.show(x)[:60] for x in lv if not (x[0] == "idx" and x[1] == MA)]
     L.ob("C07.R6", F_GSM, "HoppingParams.resolve", "every path of resolve() returns self.ma[mai]", [], bad, not bad,
          py.resolve.lineno)
-    L.floor("C07.R6", "return paths of resolve()", len(lv), 2)
+    # one leaf when both hopping modes share the exit that adds MAIO, two when each returns on its own
+    L.floor("C07.R6", "return paths of resolve()", len(lv), 1)
+
+
+def r6_getters(L, repo):
     mod = repo.mod("transceiver")
     L.unit(F_TRX)
     n = 0
@@ -830,6 +916,9 @@ def r6_use(L, repo, py, cs):
             ok = val is not None and (val == "None" or val.startswith("HoppingParams("))
             L.ob("C07.R6", m.rel, qualname(node), "`fh` holds a HoppingParams object or None", "HoppingParams(...) | None", val, ok,
                  node.lineno)
+
+
+def r6_c_use(L, cs):
     # firmware: rfch_get_params hands its own time and the h1 parameters to the generator
     tu = cs.tu
     g = tu.func("rfch_get_params")
@@ -854,23 +943,211 @@ def r6_use(L, repo, py, cs):
          ">= 64", flds.get("ma"), (array_extent(flds.get("ma")) or 0) >= 64)
 
 
+# ------------------------------------------------------------------------------
+# R7: the simulator's channel selection, folded for witnesses
+
+class ObjEv(Ev):
+    """consteval.Ev plus calls of the object's own methods: `self.m(...)` is folded through the method body -- a static
+    method with the folded arguments, an instance method with the facts about `self` (the attributes the folded
+    constructor stored) visible.  Anything else stays Unknown."""
+
+    def ev_Call(self, n):
+        f = n.func
+        if isinstance(f, ast.Attribute) and isinstance(f.value, ast.Name) and f.value.id == "self" and "self" not in self.env \
+                and self.self_cls is not None and ast.unparse(f) not in self.hooks:
+            c, m = self.repo.find_method(self.self_cls, f.attr)
+            if m is not None:
+                deco = {d.id for d in m.decorator_list if isinstance(d, ast.Name)}
+                if len(deco) != len(m.decorator_list) or deco - {"staticmethod"} or any(isinstance(a, ast.Starred) for a in n.args):
+                    raise Unknown("call %s" % ast.unparse(f))
+                args = [self.ev(a) for a in n.args]
+                kw = {k.arg: self.ev(k.value) for k in n.keywords if k.arg is not None}
+                if len(kw) != len(n.keywords):
+                    raise Unknown("**kw")
+                if "staticmethod" in deco:
+                    return self.call_func(m, c.mod, self._bindargs(m, args, kw), self_cls=self.self_cls)
+                if self.depth > 12:
+                    raise Unknown("depth")
+                env = dict(self._bindargs(m, ["<self>"] + args, kw))
+                if env.pop(m.args.args[0].arg if m.args.args else None, None) != "<self>":
+                    raise Unknown("call %s" % ast.unparse(f))
+                facts = {k: v for k, v in self.env.items() if isinstance(k, str) and k.startswith("self.")}
+                for k, v in facts.items():
+                    env.setdefault(k, v)
+                sub = self._mk(c.mod, env, self.self_cls, self.depth + 1)
+                r = sub.run_block(m.body)
+                if {k: v for k, v in sub.env.items() if isinstance(k, str) and k.startswith("self.")} != facts:
+                    raise Unknown("%s stores attributes of self" % ast.unparse(f))      # effects of a callee are not modelled
+                return None if r is _FALL else r[1]
+        return Ev.ev_Call(self, n)
+
+
+WITNESS_FULL_N = (1, 2, 3, 4, 5)                    # every MAIO of the domain
+WITNESS_EDGE_N = (6, 7, 8, 15, 16, 31, 32, 33, 63, 64)  # MAIO around the multiples of N and at the domain's ends
+WITNESS_HSN = (1, 63)
+FN_LAST = G.HYPERFRAME - 1
+FN_T1_64 = 64 * 1326 + 7                            # T1 = 64: T1R = 0
+
+
+def ref_select(rntable, hsn, maio, n, fn):
+    """TS 45.002 6.2.3 computed by the checker: (MAI, S, M' >= N)"""
+    if hsn == 0:
+        return (fn + maio) % n, fn % n, None
+    t1, t2, t3 = fn // 1326, fn % 26, fn % 51
+    p = nbin_mask(n) + 1
+    mp = (t2 + rntable[(hsn ^ (t1 % 64)) + t3]) % p
+    s = mp if mp < n else (mp + t3 % p) % n
+    return (s + maio) % n, s, mp >= n
+
+
+def witness_maio(n, full):
+    if full:
+        return list(range(64))
+    return sorted({m for m in (0, 1, n - 1, n, n + 1, 2 * n - 1, 2 * n, 2 * n + 1, 62, 63) if 0 <= m <= 63})
+
+
+def witness_fns(rntable, hsn, n, full):
+    """frame numbers: cyclic -- every residue of FN mod N (N <= 5), else the ends; pseudo-random -- one frame per value
+    of S (up to 5 values), one on each side of M' < N, one with T1 >= 64, the last frame of the hyperframe"""
+    if hsn == 0:
+        fns = list(range(n)) if full else [0, 1, n - 1, n]
+        return sorted(set(fns + [FN_LAST]))
+    out, seen_s, seen_b = [], set(), set()
+    for fn in range(0, 26 * 51):
+        _, s, b = ref_select(rntable, hsn, 0, n, fn)
+        if (s < 5 and s not in seen_s) or b not in seen_b:
+            out.append(fn)
+        seen_s.add(s)
+        seen_b.add(b)
+        if len(seen_b) == 2 and len(seen_s) >= min(n, 5):
+            break
+    return sorted(set(out + [FN_T1_64, FN_LAST]))
+
+
+def r7_witnesses(L, repo, spec):
+    """C07.R7 decides, on the simulator side, the clause "the selected channel is MA[MAI], MAI = (S + MAIO) mod N
+    (cyclic: (FN + MAIO) mod N)" for the *object as constructed*: HoppingParams.__init__ and then resolve() are folded by
+    the whitelisted evaluator (consteval; no repository code runs) for concrete witnesses (HSN, MAIO, MA of N distinct
+    channels, FN) and the value returned is compared with MA[MAI] of TS 45.002 6.2.3 computed by the checker from
+    spec/hopping.json.  N = 1..5 with every MAIO in 0..63 (MAIO < N, MAIO >= N, multiples of N) and frames covering every
+    value of S; larger N at the edges.  A differing witness is a concrete input of the property's domain on which the
+    simulator selects another channel than the standard (and the firmware, R3) -- a necessary condition, however the code
+    is written.  It complements R3, which compares resolve() alone under the assumption that the constructor stores
+    (hsn, maio, ma) unchanged.  No verdict is derived from a fold that leaves the evaluator's vocabulary: the group is
+    then skipped (noted in the evidence) and the formula rules decide alone."""
+    mod = repo.mod("gsm_shared")
+    L.unit(F_GSM)
+    ci, init = repo.need_method("gsm_shared", "HoppingParams", "__init__")
+    _, resolve = repo.need_method("gsm_shared", "HoppingParams", "resolve")
+    L.fn(F_GSM, "HoppingParams.__init__")
+    L.fn(F_GSM, "HoppingParams.resolve")
+    rps = [a.arg for a in resolve.args.args]
+    if len(rps) != 2:
+        raise AnalysisError("HoppingParams.resolve: expected (self, fn), found %r" % rps)
+    rntable = spec["RNTABLE"]
+    skip = (Unknown, TypeError, ValueError, ArithmeticError, LookupError, AttributeError, RecursionError)
+    folded = 0
+    status = "complete"
+
+    class Skip(Exception):
+        pass
+
+    # class-level constants (the table) folded once; `self.X` reads them unless the constructor stores an attribute X
+    consts = {}
+    for name, node in ci.attrs.items():
+        try:
+            consts["self." + name] = Ev(repo, mod, self_cls=ci).ev(node)
+        except (Unknown, Raised):
+            pass
+
+    def construct(hsn, maio, ma):
+        ev = ObjEv(repo, mod, self_cls=ci)
+        try:
+            ev.env = dict(ev._bindargs(init, ["<self>", hsn, maio, list(ma)], {}))
+            del ev.env["self"]
+            r = ev.run_block(init.body)
+        except Raised as e:
+            raise AnalysisError("HoppingParams.__init__ raises %s for HSN = %d, MAIO = %d and a mobile allocation of %d channels "
+                                "(inside the property's domain); the channel selection cannot be folded" % (e.cls, hsn, maio, len(ma)))
+        except skip as e:
+            raise Skip("HoppingParams.__init__: %s" % e)
+        obj = dict(consts)
+        obj.update({k: v for k, v in ev.env.items() if isinstance(k, str) and k.startswith("self.")})
+        return obj
+
+    def select(obj, fn):
+        ev = ObjEv(repo, mod, env=dict(obj, **{rps[1]: fn}), self_cls=ci)
+        try:
+            r = ev.run_block(resolve.body)
+        except Raised as e:
+            raise AnalysisError("HoppingParams.resolve raises %s for FN = %d; the channel selection cannot be folded" % (e.cls, fn))
+        except skip as e:
+            raise Skip("HoppingParams.resolve: %s" % e)
+        v = r[1] if isinstance(r, tuple) and len(r) == 2 and r[0] == "ret" else None
+        return tuple(v) if isinstance(v, list) else v
+
+    try:
+        for n in WITNESS_FULL_N + WITNESS_EDGE_N:
+            full = n in WITNESS_FULL_N
+            ma = [(1805200 + 200 * i, 1710200 + 200 * i) for i in range(n)]
+            for mode, hsns in (("cyclic hopping (HSN 0): MA[(FN + MAIO) mod N]", (0,)),
+                               ("pseudo-random hopping (HSN %s): MA[(S + MAIO) mod N]" % ", ".join(map(str, WITNESS_HSN)),
+                                WITNESS_HSN)):
+                bad, k = [], 0
+                for hsn in hsns:
+                    fns = witness_fns(rntable, hsn, n, full)
+                    for maio in witness_maio(n, full):
+                        obj = construct(hsn, maio, ma)
+                        for fn in fns:
+                            got = select(obj, fn)
+                            mai, s, _ = ref_select(rntable, hsn, maio, n, fn)
+                            k += 1
+                            if got != ma[mai]:
+                                bad.append((hsn, maio, fn, s, mai, "MA[%d]" % ma.index(got) if got in ma else repr(got)[:40]))
+                folded += k
+                found = "equal for all %d witnesses" % k
+                if bad:
+                    h, m, fn, s, mai, got = bad[0]
+                    found = "N = %d, MAIO = %d, HSN = %d, FN = %d (S = %d): MA[%d] expected, %s selected; differs for %d of %d " \
+                        "witnesses" % (n, m, h, fn, s, mai, got, len(bad), k)
+                    if all(b[1] >= n for b in bad):
+                        found += "; every differing witness has MAIO >= N (MAIO = %s)" % ", ".join(
+                            str(x) for x in sorted({b[1] for b in bad})[:6])
+                L.ob("C07.R7", F_GSM, "HoppingParams.resolve",
+                     "N = %d channels, %s is what HoppingParams(HSN, MAIO, MA).resolve(FN) selects (constructor + resolve folded) "
+                     "for %s" % (n, mode, "every MAIO in 0..63" if full else "MAIO in %s" % witness_maio(n, full)),
+                     "equal for all %d witnesses" % k, found, not bad, resolve.lineno)
+    except Skip as e:
+        status = "skipped after %d witnesses, outside the evaluator's vocabulary: %s" % (folded, e)
+    L.extra["channel_selection_witnesses"] = {"folded": folded, "status": status}
+    if status == "complete":
+        L.floor("C07.R7", "channel-selection witnesses folded (N, HSN, MAIO, FN)", folded, 5000)
+
+
 def run(L, tier):
     spec = load_spec()
     repo = Repo(L.repo)
-    py = PySide(L, repo)
-    cs = CSide(L)
-    ptab, ctab, cext = r1_tables(L, repo, py, cs, spec)
-    r2_mask(L, repo, py, cs)
-    try:
-        sp, sc = r3_formula(L, py, cs, spec["RNTABLE"])
-    except AnalysisError as e:
-        # a recognised violation elsewhere (table, mask) takes precedence over "cannot tell" here
-        if any(not o.ok for o in L.obs):
-            L.extra["r3_skipped"] = str(e)
-            sp = spec_terms(FN, *[G.spec_decomposition(FN)[k] for k in ("t1", "t2", "t3")])
-            sc = spec_terms(FN, V("T1"), V("T2"), V("T3"))
-        else:
-            raise
-    r4_time(L, repo, py, cs, sp, sc)
-    r5_bound(L, py, cs, ptab, ctab, cext)
-    r6_use(L, repo, py, cs)
+    # every rule group is a stage: an AnalysisError in one group is deferred, the groups that do not depend on
+    # its result still run and a violation recognised by any of them is reported
+    L.stage(r7_witnesses, L, repo, spec)
+    py = L.stage(PySide, L, repo)
+    cs = L.stage(CSide, L)
+    ptab = L.stage(r1_py_table, L, repo, py, spec)
+    ctab = L.stage(r1_c_table, L, cs, spec)
+    L.stage(r1_same_table, L, py, ptab, ctab)
+    L.stage(r2_py_mask, L, repo, py)
+    L.stage(r2_c_mask, L, cs)
+    # conditional subtractions settled first (their own obligations) and the vocabulary checked; the formula, T1R, index
+    # and return-path rules read the result
+    py_s = L.stage(settle_py, L, py, spec["RNTABLE"])
+    cs_s = L.stage(settle_c, L, cs, spec["RNTABLE"])
+    L.stage(r3_py_formula, L, py_s)
+    L.stage(r3_c_formula, L, cs_s)
+    L.stage(r4_decomposition, L, repo)
+    L.stage(r4_py_t1r, L, py_s)
+    L.stage(r4_c_t1r, L, cs_s)
+    L.stage(r5_py_bound, L, py_s, ptab)
+    L.stage(r5_c_bound, L, cs_s, ctab)
+    L.stage(r6_py_returns, L, py_s)
+    L.stage(r6_getters, L, repo)
+    L.stage(r6_c_use, L, cs)
